@@ -198,12 +198,12 @@ func negotiateServer(ctx context.Context, identity, password string, permissions
 		}
 
 		// An empty payload or a payload of "=" (the correct way to transmit an empty
-		// payload) will result in a zero length buffer).
-		l := base64.StdEncoding.DecodedLen(len(selection.Payload))
+		// payload) is a zero length message. Anything else has to be base64, also
+		// when it is too short to hold any data.
 		var decodedData []byte
-		if l > 1 {
-			decodedData = make([]byte, l)
-			n, err := base64.StdEncoding.Decode(decodedData, selection.Payload)
+		if p := selection.Payload; len(p) > 0 && !(len(p) == 1 && p[0] == '=') {
+			decodedData = make([]byte, base64.StdEncoding.DecodedLen(len(p)))
+			n, err := base64.StdEncoding.Decode(decodedData, p)
 			if err != nil {
 				return 0, nil, err
 			}
